@@ -34,6 +34,7 @@ struct GenKnobs {
     int p_empty = 25;           // percent of containers left empty
     bool names_nul = true;      // allow 0x00 in names
     int max_kids = 5;           // children per container: 1..max_kids
+    Bytes stem; int stem_pct = 0;   // non-empty: this share of the names is stem (or a prefix of it) + a short tail (see pick_name_family)
     int wide = 0;               // > 0: one container of the document gets this many scalar children (counts beyond narrow counters)
 };
 
@@ -41,6 +42,7 @@ struct GenKnobs {
 struct Piece { size_t off, len; };
 
 Node gen_tree(Rng &r, const GenKnobs &k, bool array_root);
+void pick_name_family(Rng &r, GenKnobs &k);      // sets k.stem / k.stem_pct
 void encode(Node &root, Bytes &out, std::vector<Piece> *pieces = nullptr);     // fills spans
 bool decode(const Bytes &in, bool array_root, Node &root);                     // strict enough for valid docs; fills spans
 std::string tree_text(const Node &n, int limit = 400);
